@@ -15,6 +15,7 @@ import (
 	"strconv"
 	"strings"
 	"sync"
+	"sync/atomic"
 	"testing"
 	"time"
 
@@ -43,9 +44,13 @@ type responder struct {
 	lastID map[string]string // id of the library's last join / leave presence
 	hook   func()            // called between the two pieces of a split reply
 	split  chan struct{}     // receives once both pieces of a split reply have been fed
-	trace  []string
-	stop   chan struct{}
-	done   chan struct{}
+	// number of split replies whose second piece has not been fed yet (a join
+	// presence of an earlier step that reaches the wire late is answered
+	// according to the current policy too)
+	splitting atomic.Int32
+	trace     []string
+	stop      chan struct{}
+	done      chan struct{}
 }
 
 func newResponder(sv *wire.Served, ns string) *responder {
@@ -167,6 +172,7 @@ func (r *responder) react(e *xt.Node) {
 		case "error-split":
 			// the refusal arrives in two pieces and the caller's context ends in
 			// between (after the reply has been matched to the waiting call)
+			r.splitting.Add(1)
 			r.sv.Feed(`<presence xmlns="` + r.ns + `" type="error" id="` + id + `" from="` + to + `"><x xmlns="http://jabber.org/protocol/muc"/>`)
 			r.sv.Conn.WaitDrainedOr(r.sv.Done(), time.Second)
 			time.Sleep(time.Millisecond)
@@ -178,7 +184,11 @@ func (r *responder) react(e *xt.Node) {
 			}
 			time.Sleep(2 * time.Millisecond)
 			r.sv.Feed(`<error type="auth"><forbidden xmlns="urn:ietf:params:xml:ns:xmpp-stanzas"/></error></presence>`)
-			r.split <- struct{}{}
+			r.splitting.Add(-1)
+			select {
+			case r.split <- struct{}{}:
+			default:
+			}
 		default:
 			t := ""
 			if what == "leave" {
@@ -790,6 +800,21 @@ func checkHelpers(t interface {
 					cancel()
 					return
 				}
+			}
+			if st.pol == "error-split" {
+				// a join presence of this or an earlier step that reaches the wire
+				// from now on is not answered in pieces any more
+				rsp.set("join", "silent")
+			}
+			// (no element of the peer is left open: whatever is fed next must not
+			// land inside a reply whose second piece is still to come)
+			for k := 0; rsp.splitting.Load() != 0; k++ {
+				if k > 15000 {
+					ev.Class("inconclusive-timeout")
+					cancel()
+					return
+				}
+				time.Sleep(time.Millisecond)
 			}
 			if !st.flag || st.pol == "silent" {
 				cancel()
